@@ -10,6 +10,8 @@ import (
 type Function struct {
 	name         string
 	logicHandler r.FuncExecutor
+	// module - the module that declares the method (nil for native ones)
+	module *r.Module
 }
 
 func NewFunction(executor r.FuncExecutor) *Function {
@@ -24,6 +26,17 @@ func (fn *Function) String() string {
 		return "‹某方法›"
 	}
 	return fmt.Sprintf("‹方法·%s›", fn.name)
+}
+
+// SetModule - the module that declares the method: its body runs there
+func (fn *Function) SetModule(module *r.Module) *Function {
+	fn.module = module
+	return fn
+}
+
+// GetModule - the module that declares the method (nil for native ones)
+func (fn *Function) GetModule() *r.Module {
+	return fn.module
 }
 
 func (fn *Function) SetName(name string) *Function {
